@@ -265,6 +265,18 @@ func init() {
 			m2.Pre = map[string]byte{"c": 'f'}
 			add("mkdirfail/one-exists", m2, k1, w3)
 		}
+		// 4b. a failing file-system call at each of the first calls of a massive mkdir / verify
+		for j := 1; j <= 6; j++ {
+			m := NewDrv("mkdir", ok3)
+			m.FSFailAt = j
+			add(fmt.Sprintf("fsfail/mkdir/at%d", j), m, k1, w3)
+			if j <= 3 {
+				v := NewDrv("verify", ok3)
+				v.FSFailAt = j
+				v.Pre = map[string]byte{"a/b": 'd', "c/d": 'd', "e": 'd'}
+				add(fmt.Sprintf("fsfail/verify/at%d", j), v, k1, w3)
+			}
+		}
 		// 5. reader failure / reader-triggered cancellation at every line boundary and inside a line
 		for _, off := range []int{0, 2, 4, 10, 12, 20, 24} {
 			d := NewDrv("out-text", ok3)
